@@ -51,7 +51,7 @@ META = {
                    'operator: %d filters) x (metadata value absent or one of 15 JSON values) is enumerated completely: every pair through the matcher '
                    'directly and every filter as a lookup over the 16 stored recordings on each of the three real cassettes (S3 matches JSON text, the '
                    'others decoded objects); beyond it seeded random nested filters and metadata, two-key conjunctions.  A reference matcher with '
-                   'explicit don\'t-care cells is the oracle; every answer is asked twice.') % len(FILTERS),
+                   'explicit don\'t-care cells is the oracle; every answer is asked twice. Also: two threads matching at the same time under the line-level scheduler, with separate and with the very same filter object.') % len(FILTERS),
     'level_note': 'Trusted: model_match (engines/storage.py) as the reading of the documentation; don\'t-care cells only require "returns a bool, does not raise".',
     'rule': ('evaluation = one (filter, value) pair through the matcher, or one filter as a lookup on one cassette (table part), or one random '
              '(filter, metadata) case; non-trivial = the filter is not a plain equality against a present value of the same type; distinct = distinct '
